@@ -80,6 +80,17 @@ theorem scalar_dagOK (z : Cyc8) (hz : z.isNormal = true) : (Gate.scalar z).dagOK
   simp [Gate.dagOK, Gate.shapeOK, isMatB, allNormalB, Gate.eval, Gate.evalW, Gate.isDagger, Gate.arrayW,
     Gate.dagger, Gate.dom, Gate.cod, pow2, hz, dagger, transpose, Conj.conj]
 
+/-- A user-defined `QuantumGate` on ZERO qubits (a global phase `QuantumGate(name, 0, [z])`, gates.py:21-46)
+    that carries a dagger flag (`_dagger = False`, the default of the constructor, or `True` after
+    `.dagger()`): `⟦g†⟧ = ⟦g⟧†` for every name, flag and normalised entry.  (With `_dagger = None` the gate
+    is declared self-adjoint and the statement holds only for a real entry.) -/
+theorem phase0_dagOK (name : String) (z : Cyc8) (b : Bool) (hz : z.isNormal = true) :
+    (Gate.q ⟨name, 0, [[z]], some b⟩).dagOK = true := by
+  have hc : z.conj.isNormal = true := Cyc8.isNormal_conj hz
+  cases b <;>
+    simp [Gate.dagOK, Gate.shapeOK, isMatB, allNormalB, Gate.eval, Gate.evalW, Gate.isDagger, Gate.arrayW,
+      Gate.dagger, QGate.dagger, Gate.dom, Gate.cod, pow2, hz, hc, dagger, transpose, Conj.conj, Cyc8.conj_conj]
+
 /-- Square-root scalars `sqrt(z)` with value `r`: `⟦s†⟧ = ⟦s⟧†` whenever the box is not taken for self-adjoint
     (every non-real `z`) or its value is real (`z ≥ 0`) — i.e. everywhere but at negative real `z` (F4k). -/
 theorem sqrt_dagOK (z r : Cyc8) (hr : r.isNormal = true) (h : sqrtSelfAdjoint z r = false ∨ r.conj = r) :
